@@ -26,6 +26,7 @@ class Setting:
             self.rc = self.rp = ref
             self.oc = self.op = opt
             self.tiny = False
+            self.family = name
         else:
             T = tinypair.get(name)
             self.p, self.r = T.p, T.r
@@ -34,6 +35,8 @@ class Setting:
             self.G1, self.G2 = T.G1, T.G2
             self.rc, self.rp, self.oc, self.op = T.ref_curve, T.ref_pair, T.opt_curve, T.opt_pair
             self.tiny = True
+            self.family = T.fam
+            self.b = T.c["b"]
 
     # module selectors -------------------------------------------------------
     def curve(self, fam):
